@@ -269,6 +269,20 @@ func (c *Ctx) Eq(a, b *Term) *Term {
 			return c.Not(a)
 		}
 	}
+	// equality of a zero-extended value with a constant
+	if b.IsConst() && a.Op == OZext {
+		in := a.A[0]
+		if b.Val>>in.W != 0 {
+			return c.False
+		}
+		return c.Eq(in, c.Const(in.W, b.Val))
+	}
+	if a.IsConst() && b.Op == OZext {
+		return c.Eq(b, a)
+	}
+	if a.Op == OZext && b.Op == OZext && a.A[0].W == b.A[0].W {
+		return c.Eq(a.A[0], b.A[0])
+	}
 	// push equality with a constant through ite of constants
 	if b.IsConst() && a.Op == OIte && (a.A[1].IsConst() || a.A[2].IsConst()) {
 		return c.Ite(a.A[0], c.Eq(a.A[1], b), c.Eq(a.A[2], b))
@@ -460,6 +474,41 @@ func (c *Ctx) Cmp(op Op, a, b *Term) *Term {
 	}
 	if a == b {
 		return c.Bool(op == OUle || op == OSle)
+	}
+	// comparisons of a zero-extended value with a constant
+	if a.Op == OZext && b.IsConst() && a.A[0].W < a.W {
+		in := a.A[0]
+		nonneg := sext64(b.Val, b.W) >= 0
+		if op == OUlt || op == OUle || nonneg {
+			if b.Val>>in.W != 0 {
+				return c.True // the constant exceeds every value of the narrow operand
+			}
+			nop := op
+			if op == OSlt {
+				nop = OUlt
+			} else if op == OSle {
+				nop = OUle
+			}
+			return c.Cmp(nop, in, c.Const(in.W, b.Val))
+		}
+		return c.False // signed comparison with a negative constant
+	}
+	if b.Op == OZext && a.IsConst() && b.A[0].W < b.W {
+		in := b.A[0]
+		nonneg := sext64(a.Val, a.W) >= 0
+		if op == OUlt || op == OUle || nonneg {
+			if a.Val>>in.W != 0 {
+				return c.False
+			}
+			nop := op
+			if op == OSlt {
+				nop = OUlt
+			} else if op == OSle {
+				nop = OUle
+			}
+			return c.Cmp(nop, c.Const(in.W, a.Val), in)
+		}
+		return c.True
 	}
 	return c.mk(op, 0, 0, "", a, b, nil)
 }
